@@ -54,6 +54,7 @@ type Result struct {
 	Symbols     map[string]int    `json:"symbols"`
 	WallS       float64           `json:"wall_s"`
 	OutcomeSet  []uint64          `json:"outcome_set,omitempty"`
+	StateSet    []uint64          `json:"state_set,omitempty"`
 }
 
 // Ctx is handed to enumeration scenarios.
@@ -179,7 +180,8 @@ func Main(property string, scenarios []Scenario) int {
 	outcomes := map[uint64]struct{}{}
 	states := map[uint64]struct{}{}
 	for i, sc := range scenarios {
-		if i%nshard != shard || res.Internal != "" {
+		split := sc.Run == nil && sc.Opt.SplitDepth > 0
+		if (!split && i%nshard != shard) || res.Internal != "" {
 			continue
 		}
 		if only != "" && !strings.Contains(sc.Name, only) {
@@ -209,6 +211,9 @@ func Main(property string, scenarios []Scenario) int {
 		opt := sc.Opt
 		opt.Name = sc.Name
 		opt.Deadline = deadline
+		if split {
+			opt.Shard, opt.NShard = shard, nshard
+		}
 		vrt.Explore(opt, sc.Body, sc.Verdict, &st)
 		res.Executions += st.Executions
 		res.Transitions += st.Transitions
@@ -241,6 +246,11 @@ func Main(property string, scenarios []Scenario) int {
 	for k := range outcomes {
 		res.OutcomeSet = append(res.OutcomeSet, k)
 	}
+	if len(states) <= 3000000 {
+		for k := range states {
+			res.StateSet = append(res.StateSet, k)
+		}
+	}
 	sort.Slice(res.OutcomeSet, func(i, j int) bool { return res.OutcomeSet[i] < res.OutcomeSet[j] })
 	res.WallS = time.Since(start).Seconds()
 	b, _ := json.Marshal(res)
@@ -252,6 +262,7 @@ func Main(property string, scenarios []Scenario) int {
 	} else {
 		var pretty Result = *res
 		pretty.OutcomeSet = nil
+		pretty.StateSet = nil
 		for i := range pretty.Violations {
 			pretty.Violations[i].Trace = nil
 		}
